@@ -633,7 +633,7 @@ def run(tier, seed, ev, vd):
     ev.extra['map_rows_replayed'] = {'rows': nmap, 'stride': stride}
     # 5. FFFile: well-formed sequences + every fault at every position
     faults = sorted(CH.FAULT_IDS)
-    menu = CH.menu_tla(None if not quick else {1, 2, 3, 4, 5, 6, 7, 8, 10, 13, 14}, faults if not quick else faults[::2] + [faults[-1]])
+    menu = CH.menu_tla(None if not quick else {1, 2, 3, 4, 5, 6, 7, 8, 10, 13, 14, 15}, faults if not quick else faults[::2] + [faults[-1]])
     res = tlc.run('FFFile', 'SPECIFICATION Spec\nINVARIANT ExactlyOnceInOrder\nINVARIANT ErrorIffMalformed\n',
                   consts={'Menu': menu, 'MaxChunks': '3' if quick else '4', 'CloseOnStore': 'TRUE'}, dump=True, timeout=3000)
     if res.violated:
